@@ -61,6 +61,21 @@ impl<E: Edge, N: InnerNode<E>> DiagramRules<E, N, ZBDDTerminal> for ZBDDRules {
     fn cofactors(_tag: E::Tag, node: &N) -> Self::Cofactors<'_> {
         node.children()
     }
+
+    #[inline]
+    fn skipped_cofactor<M: Manager<Edge = E, InnerNode = N, Terminal = ZBDDTerminal>>(
+        manager: &M,
+        edge: &E,
+        n: usize,
+    ) -> E {
+        // A skipped level is zero-suppressed: no set contains the variable.
+        if n == HI {
+            manager.get_terminal(ZBDDTerminal::Empty).unwrap()
+        } else {
+            debug_assert_eq!(n, LO);
+            manager.clone_edge(edge)
+        }
+    }
 }
 
 #[inline(always)]
